@@ -1,7 +1,7 @@
 (* C10: block level round trips of the version 2 pack format (atom record, bond order bit stream, connection table,
    cis/trans block, header).  The molecule level theorem is in PackRoundtripMol.v. *)
 From Coq Require Import ZArith List Bool Lia ZifyBool.
-From Model Require Import PyBase Pack.
+From Model Require Import PyBase Pack PackSpec.
 From Gen Require Import Elements.
 From Proofs Require Import PeriodicTable PackBits.
 Import ListNotations.
@@ -9,25 +9,6 @@ Open Scope Z_scope.
 
 (* ================================================================================================ *)
 (* 1. one atom record *)
-
-Definition iso_ok (an : Z) (iso : option Z) : bool :=
-  match iso with
-  | None => true
-  | Some i => let k := i - znth pack_common_isotopes an 0 in (1 <=? k) && (k <=? 31)
-  end.
-Definition h_ok (h : option Z) : bool := match h with None => true | Some v => (0 <=? v) && (v <=? 6) end.
-Definition byte_ok (x : Z) : bool := (0 <=? x) && (x <? 256).
-
-(* the format limits of one atom *)
-Definition atom_ok (a : patom) : bool :=
-  (0 <=? pa_n a) && (pa_n a <? 4096) && (length (pa_nbrs a) <=? 15)%nat &&
-  (0 <=? pa_an a) && (pa_an a <? 128) && iso_ok (pa_an a) (pa_iso a) && h_ok (pa_h a) &&
-  (-4 <=? pa_chg a) && (pa_chg a <=? 4) && (length (pa_xy a) =? 4)%nat && forallb byte_ok (pa_xy a).
-
-(* what unpack must return for the atom *)
-Definition uatom_of (a : patom) : uatom :=
-  mkUAtom (pa_n a) (Z.of_nat (length (pa_nbrs a))) (pa_an a) (pa_iso a) (pa_stereo a) (pa_h a) (pa_chg a) (pa_rad a)
-          (pa_xy a).
 
 Lemma atom_bytes_length a : length (pa_xy a) = 4%nat -> length (atom_bytes a) = 9%nat.
 Proof. intros H. unfold atom_bytes. rewrite !app_length, H. reflexivity. Qed.
